@@ -1331,7 +1331,19 @@ pub fn read_memory_by_pid(pid: Pid, addr: usize, read_n: usize) -> Result<Vec<u8
 
     let mut addr = addr as *mut c_long;
     while read_reminder > 0 {
-        let value = sys::ptrace::read(pid, addr as *mut c_void)?;
+        let value = match sys::ptrace::read(pid, addr as *mut c_void) {
+            Ok(value) => value,
+            Err(e) if (read_reminder as usize) < single_read_size => {
+                // the word that starts at the tail reaches into unmapped memory while the
+                // requested bytes do not: take them from the word that ends with the tail
+                let back = single_read_size - read_reminder as usize;
+                let word_addr = (addr as usize).wrapping_sub(back);
+                let value = sys::ptrace::read(pid, word_addr as *mut c_void).map_err(|_| e)?;
+                result.extend(value.to_ne_bytes().into_iter().skip(back));
+                break;
+            }
+            Err(e) => return Err(e),
+        };
         result.extend(value.to_ne_bytes().into_iter().take(read_reminder as usize));
 
         read_reminder -= single_read_size as isize;
